@@ -1,9 +1,12 @@
 //! Kani harness crate for grass_compiler (see /verif/DESIGN.md).
 #![allow(unused, clippy::all)]
 
+extern crate alloc;
 pub mod util;
 #[cfg(kani)]
 pub mod c17;
+#[cfg(kani)]
+pub mod c01;
 #[cfg(kani)]
 #[path = "gen/playback.rs"]
 mod playback;
